@@ -26,13 +26,19 @@ def check_c08(ctx):
     json.dump(std, open(pstd, "w"))
     # units the walks do not use: SI-prefixed ones, whose ratios the library derives
     allext = ["MODIFIERS", "ALIAS", "ADVANCED_UNITS", "MODES", "INLINE", "RANGE", "TIMER_REQ", "INTERMEDIATE"]
-    for u in ["dl", "cl", "dag", "dal", "hg", "mg", "dm", "km", "ml", "kg", "fl oz", "pint", "lb"]:
-        for v in ["2", "=2", "1-3", "0.5"]:
+    for u in ["dl", "cl", "dag", "dal", "hg", "mg", "dm", "km", "ml", "kg", "fl oz", "pint", "lb", "tbsp", "cup", "ft", "oz", "tsp", "gal"]:
+        for v in ["2", "=2", "1-3", "0.5", "1", "=0.07"]:
             docs.append(dict(text=f"@x{{{v}%{u}}} and @y{{3%{u}}}\n", ext=allext, conv="bundled",
                              pred=dict(valid=True, model=dict(igr=[dict(q=dict(t="q", fixed=v.startswith("="))), dict(q=dict(t="q", fixed=False))],
                                                               cw=[], tm=[], servings=[]))))
+    # timers with and without a duration next to named ones, under the canonical parser (a timer may lack its time there)
+    for t, tm in [("~rest{} then ~{5%min} and ~egg{3%minutes}\n", [dict(q=dict(t="none")), dict(q=dict(t="q", fixed=True)), dict(q=dict(t="q", fixed=True))]),
+                  ("~proof{} @a{1} #p{2}\n", [dict(q=dict(t="none"))])]:
+        docs.append(dict(text=t, ext=[], conv="bundled",
+                         pred=dict(valid=True, model=dict(igr=[dict(q=dict(t="q", fixed=False))] if "@a" in t else [],
+                                                          cw=[dict(q=dict(t="q", fixed=True))] if "#p" in t else [], tm=tm, servings=[]))))
     rnd = random.Random(ctx.seed)
-    factors = ["0.3333333333333333", "0.5", "1", "1.5", "2", "10"] + ([] if quick else [repr(rnd.uniform(0.01, 50)) for _ in range(6)] + ["1e-3", "1e6"])
+    factors = ["0.3333333333333333", "0.5", "1", "1.5", "2", "10", "0.07", "0.013"] + ([] if quick else [repr(rnd.uniform(0.01, 50)) for _ in range(6)] + ["1e-3", "1e6"])
     pin = os.path.join(ctx.work, "s_in.ndjson")
     pout = os.path.join(ctx.work, "s_obs.ndjson")
     core.write_ndjson(pin, docs)
@@ -51,7 +57,7 @@ def check_c08(ctx):
     ctx.rule = ("valid CookDoc recipes (random walks under the extended parser with the bundled and the empty converter, the "
                 "canonical parser, and the 3-component reference kernel: every value kind x {locked, unlocked} x {known, unknown, "
                 "no unit} x {definition, reference}, cookware, timers, inline quantities, text values, servings declared as a "
-                "number, a |-list, with a unit, or not at all) x factors {1/3, 1/2, 1, 3/2, 2, 10} (thorough: + random and extreme "
+                "number, a |-list, with a unit, or not at all) x factors {1/3, 1/2, 1, 3/2, 2, 10, 0.07, 0.013} (thorough: + random and extreme "
                 "factors); per component the outcome and the physical amount before/after, everything else compared through the "
                 "projection, default_scale, and scale_to_servings(1, 3, 7) against scale(n / first declared servings of the "
                 "specification's prediction). non-trivial = (recipe, factor) pairs with at least one scaled ingredient")
